@@ -44,7 +44,7 @@ Scalars == {I(0), I(7), F(25000000), F(1234567), F(30000000), F(-98765433), S("a
 Seqs    == {L(<<I(1), F(1234567)>>), T(<<I(1), I(2)>>), L(<<>>), L(<<L(<<I(1)>>), T(<<I(2)>>)>>), L(<<None, S("z")>>)}
 Dicts   == {D(<<<<S("k"), I(1)>>>>), D(<<<<I(3), S("x")>>, <<S("y"), L(<<I(1)>>)>>>>)}
 Vals    == Scalars \cup Seqs \cup Dicts
-TextVals == {S("e\\n\"x"), Inf, NaN, T(<<I(1), I(2)>>)}     \* the binding turns the two characters backslash-n into a real newline followed by non-ASCII characters
+TextVals == {S("e\\n\"x"), Inf, NaN, T(<<I(1), I(2)>>), D(<<<<S("L1"), F(2500000)>>>>)}     \* {"L1": 0.25}: a plain dict that happens to look like the serialised form of a registered class     \* the binding turns the two characters backslash-n into a real newline followed by non-ASCII characters
 SmallVals == {I(7), F(1234567), None, L(<<I(1), F(1234567)>>), D(<<<<I(3), S("x")>>, <<S("y"), L(<<I(1)>>)>>>>)}
 MidVals == {I(0), F(25000000), F(1234567), F(30000000), S("e\\n\"x"), None, NaN, T(<<I(1), I(2)>>), L(<<L(<<I(1)>>), T(<<I(2)>>)>>), D(<<<<I(3), S("x")>>, <<S("y"), L(<<I(1)>>)>>>>)}
 Keys    == {S("a"), S("b"), I(5)}           \* I(5): a non-string field name
